@@ -44,6 +44,49 @@ def sh(cmd, timeout=None, cwd=None, env=None, check=False, input=None):
     return rc, out, time.time() - t0
 
 
+def sh_watch(cmd, timeout, cwd=None, env=None, stall=240):
+    """Like sh() for a long-running tool, but a process that stops consuming CPU for `stall` seconds (TLC 1.8 can
+    deadlock in its periodic work: main thread blocked in StateQueue.suspendAll) is killed and reported as rc 125."""
+    import tempfile
+    e = dict(os.environ)
+    if env:
+        e.update(env)
+    t0 = time.time()
+    with tempfile.TemporaryFile() as fo:
+        p = subprocess.Popen(cmd, cwd=cwd, env=e, stdout=fo, stderr=subprocess.STDOUT)
+
+        def cpu():
+            try:
+                f = open("/proc/%d/stat" % p.pid).read().rsplit(")", 1)[1].split()
+                return int(f[11]) + int(f[12])
+            except Exception:
+                return None
+        last, last_t, rc = cpu(), time.time(), None
+        while True:
+            try:
+                rc = p.wait(timeout=5)
+                break
+            except subprocess.TimeoutExpired:
+                pass
+            now = time.time()
+            c = cpu()
+            if c is not None and c != last:
+                last, last_t = c, now
+            if now - t0 > timeout:
+                p.kill(); p.wait(); rc = 124
+                break
+            if now - last_t > stall:
+                p.kill(); p.wait(); rc = 125
+                break
+        fo.seek(0)
+        out = fo.read().decode("utf-8", "replace")
+    if rc == 124:
+        out += "\n[TIMEOUT]"
+    if rc == 125:
+        out += "\n[STALLED: no CPU time consumed for %d s]" % stall
+    return rc, out, time.time() - t0
+
+
 # ----------------------------------------------------------------------------------------------
 # builds
 # ----------------------------------------------------------------------------------------------
@@ -229,7 +272,7 @@ def tlc(module, cfg, workers=None, simulate=None, depth=None, seed=None, env=Non
     if dfs:
         jopts += " -Dtlc2.tool.queue.IStateQueue=StateDeque"
     cmd = ["java"] + jopts.split() + ["-cp", "/opt/veriftools/tla/tla2tools.jar:/opt/veriftools/tla/CommunityModules-deps.jar",
-                                       "tlc2.TLC", "-metadir", meta, "-config", cfg, "-noGenerateSpecTE"]
+                                       "tlc2.TLC", "-metadir", meta, "-config", cfg, "-noGenerateSpecTE", "-checkpoint", "0"]
     if workers is None:
         workers = NCPU
     cmd += ["-workers", str(workers)]
@@ -254,7 +297,13 @@ def tlc(module, cfg, workers=None, simulate=None, depth=None, seed=None, env=Non
         if os.path.exists(out_file):
             os.remove(out_file)
     r = TlcResult()
-    rc, out, dt = sh(cmd, timeout=timeout, cwd=SPEC, env=e)
+    rc, out, dt = sh_watch(cmd, timeout=timeout, cwd=SPEC, env=e)
+    if rc == 125:          # a stalled TLC is a tool failure: one more attempt before giving up
+        shutil.rmtree(meta, ignore_errors=True)
+        if out_file and os.path.exists(out_file):
+            os.remove(out_file)
+        log("[tlc] %s/%s stalled, retrying" % (module, cfg))
+        rc, out, dt = sh_watch(cmd, timeout=timeout, cwd=SPEC, env=e)
     shutil.rmtree(meta, ignore_errors=True)
     r.rc, r.out, r.wall = rc, out, dt
     m = None
